@@ -100,13 +100,15 @@ def classify(component, what, case):
         return None
     if law == "error-record":
         # F56: the xmlns pre-scan of lyxml_open_element returns ly_getutf8's LY_EINVAL unlogged
-        if ".xml" in entry and reply[1:2] == ["EINVAL"] and re.search(rb"<[^<>]*[\x00-\x08\x0b\x0c\x0e-\x1f\x80-\xff]", inp):
+        if (".xml" in entry or entry == "lys_parse_mem.yin") and reply[1:2] == ["EINVAL"] and re.search(rb"<[^<>]*[\x00-\x08\x0b\x0c\x0e-\x1f\x80-\xff]", inp):
             return "F56"
         return None
     if law == "leak":
         if "xml_print_ns" in fset and ("lyd_print_mem" in fset or "xml_print_data" in fset):
             return "F57"
         if "lydjson_parse_any" in fset and reply[1:2] == ["EVALID"] and b"[" in inp:
+            return "F60"
+        if "lydxml_subtree_any" in fset and reply[1:2] == ["EVALID"] and b"<any" in inp:
             return "F60"
         if len(req) > 5 and req[2] == "data" and int(req[5], 16) & G.V_MULTI_ERROR and reply[1:2] == ["EVALID"] and \
                 fset & {"lyd_parse_xml", "lyd_parse_json"}:
@@ -119,7 +121,7 @@ def classify(component, what, case):
             if any(_paren_underflow(a) for a in _iff_args(inp)):
                 return "F3"
         if "iff_setop" in fset or "iff_getop" in fset or "lys_compile_iffeature" in fset:
-            if any(re.search(rb"not\s*\(+\s*not", a) for a in _iff_args(inp)):
+            if any(re.search(rb"not\s*\(+\s*not", a) or (a.count(b"not") >= 2 and b"(" in a) for a in _iff_args(inp)):
                 return "F13"
         if any(f.startswith("lys_compile_type_range") for f in fset) and "heap-buffer-overflow" in stderr:
             if any(re.search(rb"\|\s*(\||$)", a.strip()) or a.strip().startswith(b"|") for a in _range_args(inp)):
@@ -148,7 +150,11 @@ def classify(component, what, case):
             ("lydjson_envelope" in fset or ("lydjson_parse_name" in fset and "lyd_parse_json_restconf" in fset)):
         return "F55"
     if "lyplg_type_store_hex_string" in fset and "heap-buffer-overflow" in stderr and b"\x00" in inp:
-        return "F61"
+        return "F100"
+    if "ly_time_str2time" in fset and "heap-buffer-overflow" in stderr and len(inp.split(b"\x00")[0]) in (18, 19):
+        return "F101"
+    if "heap-use-after-free" in stderr and "lydict_remove" in fset and "lyd_value_validate" in fset and b"\x00" in inp:
+        return "F102"
     if fset & {"ipv4prefix_str2ip", "ipv6prefix_str2ip"} and "null pointer" in stderr:
         store_only = (len(req) > 4 and req[2] == "value" and int(req[4], 16) & 0x2) or (len(req) > 4 and req[2] == "data" and int(req[4], 16) & 0x2000000)
         if store_only:
@@ -194,7 +200,9 @@ def suspect(c):
         t = req.split()
         if t[1] == "un" and re.fullmatch(rb"\s*([+-]\d*|\d+)\.", inp): return "F51"
         if t[1] in ("ipp4", "ipp6") and int(t[2], 16) & 2 and b"/" not in inp and inp.strip(): return "F59"
-        if t[1] in ("hs", "mac", "uuid") and b"\x00" in inp[:-1]: return "F61"
+        if t[1] in ("hs", "mac", "uuid") and b"\x00" in inp[:-1]: return "F100"
+        if t[1] == "dt" and b"\x00" not in inp and len(inp) in (18, 19): return "F101"
+        if t[1] == "xp" and b"\x00" in inp[:-1]: return "F102"
     return None
 
 
@@ -393,7 +401,7 @@ class Api:
         timeout = timeout or "VERIF-TIMEOUT" in stderr
         # does it reproduce on its own (fresh process, nothing before it)?  cheap and makes the replay minimal
         alone = None
-        if self.crashes <= 40:
+        if self.crashes <= 300:
             r2, c2 = proto.run_lines([self.exe], ["0 fuzz " + c["req"]], timeout=60, env=self.env, restart=False)
             alone = bool(c2) and c2[0].get("id") == "0"
             if alone and c2[0].get("stderr"):
@@ -451,8 +459,21 @@ class Api:
             r, _c = proto.run_lines([self.exe], probe, timeout=600, env=self.env)
             win = half if r.get(str(len(half)), ["ok"])[0] != "ok" else win[len(win) // 2:]
         culprit = win[0] if len(win) == 1 else None
-        cx.fail("fuzz", "memory leak reported by LeakSanitizer" + (" after request: " + culprit[:160] if culprit else ""),
-                {"line": culprit, "window_len": at - lo, "law": "leak", "stderr": ""})
+        err, entry, reply, inp = "", None, [], b""
+        if culprit:
+            c = {"req": " ".join(culprit.split()[2:])}
+            _leaks, err = self._leak_alone(c)
+            r1, _c1 = proto.run_lines([self.exe], ["0 fuzz " + c["req"]], timeout=120, env=self.env, restart=False)
+            reply = r1.get("0", [])
+            t = c["req"].split()
+            entry = {"data": "lyd_parse_data_mem." + (t[1] if len(t) > 1 else ""), "schema": "lys_parse_mem." + (t[1] if len(t) > 1 else "")}.get(t[0], t[0])
+            try:
+                inp = unhex(t[-1])
+            except Exception:
+                inp = b""
+        cx.fail("fuzz", "memory leak reported by LeakSanitizer" + (" after request: " + culprit[:160] + " " + leak_summary(err) if culprit else ""),
+                {"line": culprit, "request": culprit, "window_len": at - lo, "law": "leak", "stderr": err[-3000:], "entry": entry, "reply": reply,
+                 "input_hex": hexs(inp)})
 
     # -- known-crash shapes: run a few, defer the rest
     def feed(self, cases, tag, batch=4000):
@@ -615,7 +636,7 @@ def run_api(cx):
         for _ in range(n_raw):
             cases.append(G.op_case(fmt, kind, parent, G.mutate_bytes(srng, doc, 1 + srng.randrange(3)), "raw-bytes", b""))
     # deep nesting (resource bounds)
-    for depth in (50, 400, 3000) + ((100000,) if thorough else ()):
+    for depth in (50, 400, 3000) + ((20000,) if thorough else ()):
         cases.append(G.data_case("xml", b'<c xmlns="urn:fz">' + b"<any>" * depth + b"</any>" * depth + b"</c>", "deep-nesting", b"", G.P_ONLY | G.P_OPAQ, 0))
         cases.append(G.data_case("xml", b"<a>" * depth, "deep-nesting", b"", G.P_ONLY | G.P_OPAQ, 0))
         cases.append(G.data_case("json", b'{"fz:c":{"any":' + b'{"a":' * depth + b"1" + b"}" * depth + b"}}", "deep-nesting", b"", G.P_ONLY | G.P_OPAQ, 0))
